@@ -819,6 +819,8 @@ def csr_cell(c, v, rd, cx, kern, out):
 
 def decl(vd, cx):
     name = vd["name"]
+    if vd.get("storageClass") in ("static", "extern") or vd.get("tls"):
+        raise TranslateError("local %s has static storage (state that outlives the call)" % name)
     ks = kids(vd)
     if not ks:
         raise TranslateError("uninitialised local %s" % name)
